@@ -92,10 +92,12 @@ void PoolWakeState::wakeRange(int32_t count) {
       // for a syscall.
       waiter.bump();
     } else {
-      // At least one worker is parked — need a real wake. Wake just
-      // the parked ones (bumpAndWakeN counts).
-      int32_t numSleepers = detail::countSetBits(mask);
-      waiter.bumpAndWakeN(numSleepers, groupSize_);
+      // At least one targeted worker is parked: need a real wake. All threads of a group wait on one
+      // futex word and the kernel chooses which waiters a wake releases, so waking "as many as there
+      // are targeted sleepers" may release only workers without work (which find nothing in their own
+      // ring and park again) and leave a targeted one asleep with a task in its ring until the sleep
+      // backstop. Wake every waiter of the group.
+      waiter.bumpAndWakeAll();
     }
   }
 }
@@ -165,8 +167,8 @@ bool PoolWakeState::cascadeWakeSeed(int32_t count) {
     if (mask == 0) {
       waiter.bump();
     } else {
-      int32_t numSleepers = detail::countSetBits(mask);
-      waiter.bumpAndWakeN(numSleepers, groupSize_);
+      // See wakeRange: the kernel picks the waiters, so wake the whole group.
+      waiter.bumpAndWakeAll();
     }
   }
   return true;
